@@ -261,6 +261,14 @@ type Session struct {
 	ReuseBuf bool
 	kbuf     []byte
 	vbuf     []byte
+	// Canary: poison the reused buffers with a step-dependent pattern after every
+	// return, verify the pattern before the next call (the engine must not write
+	// into caller memory), and keep every slice returned by Get with a private copy.
+	Canary   bool
+	kpoison  byte
+	vpoison  byte
+	poisoned bool
+	retained []retainedSlice
 	Dead     bool // a violation made the session unusable
 	Panicked bool // an engine call panicked: locks may be held, never touch the DB again
 	// MergeErrOK: Merge may return an error if nothing changed.
@@ -362,17 +370,76 @@ func (s *Session) val(v []byte) []byte {
 	return s.vbuf
 }
 
+type retainedSlice struct {
+	got  []byte
+	copy []byte
+	step int
+	what string
+}
+
 // scribble overwrites the reused buffers after a call returned.
 func (s *Session) scribble() {
 	if !s.ReuseBuf {
 		return
 	}
-	for i := range s.kbuf[:cap(s.kbuf)] {
-		s.kbuf[:cap(s.kbuf)][i] = 0xA5
+	s.kpoison, s.vpoison = 0xA5, 0x5A
+	if s.Canary {
+		s.kpoison, s.vpoison = byte(s.Step*7+1), byte(s.Step*13+5)
 	}
-	for i := range s.vbuf[:cap(s.vbuf)] {
-		s.vbuf[:cap(s.vbuf)][i] = 0x5A
+	kb, vb := s.kbuf[:cap(s.kbuf)], s.vbuf[:cap(s.vbuf)]
+	for i := range kb {
+		kb[i] = s.kpoison
 	}
+	for i := range vb {
+		vb[i] = s.vpoison
+	}
+	s.poisoned = true
+}
+
+// CheckCanary verifies that nobody wrote into the caller's buffers since the
+// last return, and that slices handed out by Get did not change.
+func (s *Session) CheckCanary(when string) bool {
+	if !s.Canary {
+		return true
+	}
+	if s.poisoned {
+		s.Res.Add("canary_checks", 1)
+		kb, vb := s.kbuf[:cap(s.kbuf)], s.vbuf[:cap(s.vbuf)]
+		for i := range kb {
+			if kb[i] != s.kpoison {
+				s.fail("caller-buffer-modified", fmt.Sprintf("%s: the caller's key buffer was written to after the call returned (byte %d of %d is %#x, poison %#x)", when, i, len(kb), kb[i], s.kpoison), "buffer", "key")
+				return false
+			}
+		}
+		for i := range vb {
+			if vb[i] != s.vpoison {
+				s.fail("caller-buffer-modified", fmt.Sprintf("%s: the caller's value buffer was written to after the call returned (byte %d of %d is %#x, poison %#x)", when, i, len(vb), vb[i], s.vpoison), "buffer", "value")
+				return false
+			}
+		}
+	}
+	for _, rs := range s.retained {
+		if s.Step-rs.step > 50 && when != "final" {
+			continue
+		}
+		s.Res.Add("retained_slice_checks", 1)
+		if !bytes.Equal(rs.got, rs.copy) {
+			s.fail("returned-slice-changed", fmt.Sprintf("%s: the slice returned by %s at step %d changed afterwards (len %d)", when, rs.what, rs.step, len(rs.copy)), "call", rs.what)
+			return false
+		}
+	}
+	return true
+}
+
+func (s *Session) retain(what string, v []byte) {
+	if !s.Canary || len(v) == 0 {
+		return
+	}
+	if len(s.retained) >= 400 {
+		s.retained = s.retained[100:]
+	}
+	s.retained = append(s.retained, retainedSlice{got: v, copy: append([]byte{}, v...), step: s.Step, what: what})
+	s.Res.Add("retained_slices", 1)
 }
 
 // CheckGet compares Get(k) with the model.
@@ -381,6 +448,7 @@ func (s *Session) CheckGet(k []byte) bool {
 	var err error
 	pv, st := Safe(func() { v, err = s.DB.Get(s.key(k)) })
 	s.scribble()
+	s.retain("DB.Get", v)
 	s.Res.Add("compared_calls", 1)
 	if pv != nil {
 		s.Panicked = true
@@ -452,7 +520,13 @@ func (s *Session) Exec(op Op) bool {
 		defer s.IO.Mark("api.return", op.Kind, s.Step)
 	}
 	s.Res.Add("ops_"+op.Kind, 1)
+	if !s.CheckCanary("before " + op.Kind) {
+		return false
+	}
 	ok := s.exec1(op)
+	if ok && !s.CheckCanary("after "+op.Kind) {
+		return false
+	}
 	if ok && s.AfterOp != nil {
 		s.AfterOp(s.Step, op)
 	}
@@ -608,6 +682,7 @@ func (s *Session) execBatch(op Op) bool {
 			case "get":
 				v, err := b.Get(s.key(so.Key))
 				s.scribble()
+				s.retain("Batch.Get", v)
 				s.Res.Add("compared_calls", 1)
 				s.Res.Add("batch_gets", 1)
 				var want []byte
